@@ -8,6 +8,8 @@ mod unix;
 pub(crate) use unix::File;
 #[cfg(target_family = "unix")]
 pub use unix::IoDriver;
+#[cfg(all(target_family = "unix", pearl_verif))]
+pub use unix::verif_io;
 
 #[cfg(target_family = "windows")]
 mod windows;
